@@ -1,13 +1,942 @@
 /-
-  Property C12 — PLACEHOLDER while the full theorem file (lean/stmts/C12.lean.txt) is being proved.
+  Property C12 — token balances, allowances and supply follow the standard token rules.
+  Statements are FIXED: prove them exactly as stated (helper lemmas go above them or in Cgp/Proofs/C12.lean).
 -/
 import Cgp.Token
 namespace Cgp.Props.C12
 open Cgp Cgp.Xdr Cgp.Token
 
+/-- sum of the balances of a list of accounts -/
+def total (st : State) : List Addr → Int
+  | [] => 0
+  | a :: r => st.bal a + total st r
+
+/-- the accounts whose balance an operation may touch -/
+def Op.accounts : Op → List Addr
+  | .mintFrom _ t _ => [t] | .mint t _ => [t]
+  | .transfer s d _ => [s, d] | .transferFrom _ s d _ => [s, d]
+  | .burn s _ => [s] | .burnFrom _ s _ => [s]
+  | _ => []
+
+/-- change of the total supply caused by a SUCCESSFUL operation -/
+def supplyDelta : Op → Int
+  | .mintFrom _ _ a => a | .mint _ a => a
+  | .burn _ a => -a | .burnFrom _ _ a => -a
+  | _ => 0
+
+/-- supply change accumulated over a history (only successful operations count) -/
+def supplyChange (st : State) : List (Ctx × Op) → Int
+  | [] => 0
+  | (c, op) :: rest =>
+    (match (step st c op).2 with | .ok _ => supplyDelta op | .error _ => 0) + supplyChange (step st c op).1 rest
+
+def NonNeg (st : State) : Prop :=
+  (∀ a, 0 ≤ st.bal a) ∧ (∀ f s al, st.allow f s = some al → 0 ≤ al.amount)
+
+/-! ### helper lemmas -/
+
+theorem spendBalance_ok {st st1 : State} {who : Addr} {amount : Int}
+    (h : spendBalance st who amount = .ok st1) :
+    amount ≤ st.bal who ∧
+    st1 = { st with bal := fun a => if a = who then st.bal who - amount else st.bal a } := by
+  unfold spendBalance at h
+  split at h
+  · cases h
+  · cases h; exact ⟨by omega, rfl⟩
+
+theorem receiveBalance_ok {st st1 : State} {who : Addr} {amount : Int}
+    (h : receiveBalance st who amount = .ok st1) :
+    st1 = { st with bal := fun a => if a = who then st.bal who + amount else st.bal a } := by
+  unfold receiveBalance at h
+  split at h
+  · cases h
+  · cases h; rfl
+
+theorem writeAllowance_ok {st st1 : State} {c : Ctx} {src spender : Addr} {amount : Int} {exp : Nat}
+    (h : writeAllowance st c src spender amount exp = .ok st1) :
+    (0 < amount → c.seq ≤ exp) ∧
+    st1 = { st with allow := fun f s => if f = src ∧ s = spender then some ⟨amount, exp⟩ else st.allow f s } := by
+  unfold writeAllowance at h
+  split at h
+  · cases h
+  · split at h
+    · cases h
+    · cases h
+      refine ⟨?_, rfl⟩
+      intro hp
+      rename_i h1 _
+      by_cases hh : exp < c.seq
+      · exact absurd ⟨hp, hh⟩ h1
+      · omega
+
+theorem read_expired_zero (st : State) (seq : Nat) (src spender : Addr)
+    (hx : (readAllowance st seq src spender).expiration < seq) :
+    (readAllowance st seq src spender).amount = 0 := by
+  unfold readAllowance at hx ⊢
+  split
+  · rfl
+  · split
+    · rfl
+    · rename_i a heq hnot
+      rw [heq] at hx
+      simp only [hnot, if_false] at hx
+
+theorem read_after_write (st : State) (seq : Nat) (src spender : Addr) (amount : Int) (exp : Nat) :
+    readAllowance { st with allow := fun f s => if f = src ∧ s = spender then some ⟨amount, exp⟩ else st.allow f s }
+      seq src spender = if exp < seq then ⟨0, exp⟩ else ⟨amount, exp⟩ := by
+  simp only [readAllowance, and_self, if_true]
+
+theorem spendAllowance_ok {st st1 : State} {c : Ctx} {src spender : Addr} {amount : Int}
+    (h : spendAllowance st c src spender amount = .ok st1) :
+    amount ≤ (readAllowance st c.seq src spender).amount ∧
+    st1.bal = st.bal ∧ st1.minter = st.minter ∧ st1.owner = st.owner ∧
+    (0 ≤ amount →
+      (readAllowance st1 c.seq src spender).amount = (readAllowance st c.seq src spender).amount - amount) ∧
+    (∀ f s, ¬ (f = src ∧ s = spender) → st1.allow f s = st.allow f s) ∧
+    (0 ≤ amount → ∀ al, st1.allow src spender = some al → st.allow src spender = some al ∨
+        al.amount = (readAllowance st c.seq src spender).amount - amount) := by
+  unfold spendAllowance at h
+  simp only at h
+  have hz := read_expired_zero st c.seq src spender
+  generalize ha : readAllowance st c.seq src spender = a at h hz ⊢
+  split at h
+  · cases h
+  · rename_i hlt
+    have hle : amount ≤ a.amount := by omega
+    split at h
+    · rename_i hpos
+      obtain ⟨hw, rfl⟩ := writeAllowance_ok h
+      refine ⟨hle, rfl, rfl, rfl, ?_, ?_, ?_⟩
+      · intro _
+        have hlive : ¬ (a.expiration < c.seq) := by
+          intro hx
+          have := hz hx
+          omega
+        rw [read_after_write, if_neg hlive]
+      · intro f s hfs
+        simp only [hfs, if_false]
+      · intro _ al hal
+        simp only [and_self, if_true] at hal
+        cases hal
+        exact Or.inr rfl
+    · cases h
+      refine ⟨hle, rfl, rfl, rfl, ?_, ?_, ?_⟩
+      · intro h0
+        have : amount = 0 := by omega
+        rw [ha]; omega
+      · intros; rfl
+      · intro _ al hal; exact Or.inl hal
+
+theorem step_cases (st : State) (c : Ctx) (op : Op) :
+    (∃ e, apply st c op = .error e ∧ step st c op = (st, .error e)) ∨
+    (∃ st' evs, apply st c op = .ok (st', evs) ∧ step st c op = (st', .ok evs)) := by
+  unfold step
+  cases h : apply st c op with
+  | error e => exact Or.inl ⟨e, rfl, rfl⟩
+  | ok p => obtain ⟨st', evs⟩ := p; exact Or.inr ⟨st', evs, rfl, rfl⟩
+
+theorem total_congr (st st' : State) (l : List Addr) (h : ∀ a ∈ l, st'.bal a = st.bal a) :
+    total st' l = total st l := by
+  induction l with
+  | nil => rfl
+  | cons x r ih =>
+    simp only [total]
+    rw [h x (by simp), ih (fun a ha => h a (by simp [ha]))]
+
+theorem total_update (st st' : State) (l : List Addr) (x : Addr) (d : Int) (hnd : l.Nodup) (hx : x ∈ l)
+    (h1 : st'.bal x = st.bal x + d) (h2 : ∀ a, a ≠ x → st'.bal a = st.bal a) :
+    total st' l = total st l + d := by
+  induction l with
+  | nil => simp at hx
+  | cons y r ih =>
+    simp only [total]
+    rw [List.nodup_cons] at hnd
+    by_cases hyx : y = x
+    · subst hyx
+      have : total st' r = total st r :=
+        total_congr st st' r (fun a ha => h2 a (fun he => hnd.1 (he ▸ ha)))
+      rw [this, h1]; omega
+    · have hxr : x ∈ r := by
+        rcases List.mem_cons.1 hx with he | hr
+        · exact absurd he.symm hyx
+        · exact hr
+      rw [ih hnd.2 hxr, h2 y hyx]; omega
+
+theorem total_move (st st' : State) (l : List Addr) (src dst : Addr) (amount : Int) (hnd : l.Nodup)
+    (hs : src ∈ l) (hd : dst ∈ l)
+    (h1 : src ≠ dst → st'.bal src = st.bal src - amount ∧ st'.bal dst = st.bal dst + amount)
+    (h2 : src = dst → st'.bal src = st.bal src)
+    (h3 : ∀ a, a ≠ src → a ≠ dst → st'.bal a = st.bal a) :
+    total st' l = total st l := by
+  by_cases he : src = dst
+  · subst he
+    apply total_congr
+    intro a _
+    by_cases ha : a = src
+    · subst ha; exact h2 rfl
+    · exact h3 a ha ha
+  · obtain ⟨hs', hd'⟩ := h1 he
+    let stm : State := { st with bal := fun a => if a = src then st.bal src - amount else st.bal a }
+    have e1 : total stm l = total st l + (-amount) := by
+      apply total_update st stm l src (-amount) hnd hs
+      · simp [stm]; omega
+      · intro a ha; simp [stm, ha]
+    have e2 : total st' l = total stm l + amount := by
+      apply total_update stm st' l dst amount hnd hd
+      · simp [stm, Ne.symm he]; exact hd'
+      · intro a ha
+        by_cases has : a = src
+        · subst has; simp [stm]; exact hs'
+        · simp [stm, has]; exact h3 a has ha
+    omega
+
+theorem approve_exact' (st st' : State) (c : Ctx) (src spender : Addr) (amount : Int) (exp : Nat) (evs : List Event)
+    (h : approve st c src spender amount exp = .ok (st', evs)) :
+    src ∈ c.auths ∧ 0 ≤ amount ∧ (0 < amount → c.seq ≤ exp) ∧
+    st' = { st with allow := fun f s => if f = src ∧ s = spender then some ⟨amount, exp⟩ else st.allow f s } ∧
+    evs = [evApprove src spender amount exp] := by
+  unfold approve at h
+  split at h
+  · cases h
+  rename_i hauth
+  split at h
+  · cases h
+  rename_i hamt
+  split at h
+  · cases h
+  rename_i st1 h1
+  cases h
+  obtain ⟨hw, rfl⟩ := writeAllowance_ok h1
+  exact ⟨by simpa using hauth, by omega, hw, rfl, rfl⟩
+
+theorem addMinter_ok {st st' : State} {c : Ctx} {m : Addr} {evs : List Event}
+    (h : addMinter st c m = .ok (st', evs)) :
+    st.owner ∈ c.auths ∧ st' = { st with minter := fun a => if a = m then true else st.minter a } := by
+  unfold addMinter at h
+  split at h
+  · cases h
+  rename_i hauth
+  cases h
+  exact ⟨by simpa using hauth, rfl⟩
+
+theorem removeMinter_ok {st st' : State} {c : Ctx} {m : Addr} {evs : List Event}
+    (h : removeMinter st c m = .ok (st', evs)) :
+    st.owner ∈ c.auths ∧ st' = { st with minter := fun a => if a = m then false else st.minter a } := by
+  unfold removeMinter at h
+  split at h
+  · cases h
+  rename_i hauth
+  cases h
+  exact ⟨by simpa using hauth, rfl⟩
+
+theorem transferOwnership_ok {st st' : State} {c : Ctx} {new : Addr} {evs : List Event}
+    (h : transferOwnership st c new = .ok (st', evs)) :
+    st.owner ∈ c.auths ∧ st' = { st with owner := new } ∧
+    evs = [evOwnershipTransferred st.owner new, evSetAdmin st.owner new] := by
+  unfold transferOwnership at h
+  split at h
+  · cases h
+  rename_i hauth
+  cases h
+  exact ⟨by simpa using hauth, rfl, rfl⟩
+
+theorem nonneg_of_bal_allow (st st' : State) (h : NonNeg st)
+    (hb : ∀ a, 0 ≤ st'.bal a)
+    (hal : ∀ f s al, st'.allow f s = some al → st.allow f s = some al ∨ 0 ≤ al.amount) : NonNeg st' := by
+  refine ⟨hb, ?_⟩
+  intro f s al hfs
+  rcases hal f s al hfs with h1 | h1
+  · exact h.2 f s al h1
+  · exact h1
+
+theorem spendAllowance_allow_nonneg {st st0 : State} {c : Ctx} {src spender : Addr} {amount : Int}
+    (h0 : spendAllowance st c src spender amount = .ok st0) (hamt : 0 ≤ amount) :
+    ∀ f s al, st0.allow f s = some al → st.allow f s = some al ∨ 0 ≤ al.amount := by
+  obtain ⟨hle, _, _, _, _, hoth, hme⟩ := spendAllowance_ok h0
+  intro f s al hfs
+  by_cases hh : f = src ∧ s = spender
+  · obtain ⟨rfl, rfl⟩ := hh
+    rcases hme hamt al hfs with h1 | h1
+    · exact Or.inl h1
+    · right; omega
+  · rw [hoth f s hh] at hfs; exact Or.inl hfs
+
+/-! ### exact effects -/
+
+theorem transfer_exact (st st' : State) (c : Ctx) (src dst : Addr) (amount : Int) (evs : List Event)
+    (h : transfer st c src dst amount = .ok (st', evs)) :
+    src ∈ c.auths ∧ 0 ≤ amount ∧ amount ≤ st.bal src ∧
+    (src ≠ dst → st'.bal src = st.bal src - amount ∧ st'.bal dst = st.bal dst + amount) ∧
+    (src = dst → st'.bal src = st.bal src) ∧
+    (∀ a, a ≠ src → a ≠ dst → st'.bal a = st.bal a) ∧
+    st'.allow = st.allow ∧ st'.minter = st.minter ∧ st'.owner = st.owner ∧
+    evs = [evTransfer src dst amount] := by
+  unfold transfer at h
+  split at h
+  · cases h
+  rename_i hauth
+  split at h
+  · cases h
+  rename_i hamt
+  split at h
+  · cases h
+  rename_i st1 h1
+  split at h
+  · cases h
+  rename_i st2 h2
+  cases h
+  obtain ⟨hle, rfl⟩ := spendBalance_ok h1
+  have := receiveBalance_ok h2
+  subst this
+  refine ⟨by simpa using hauth, by omega, hle, ?_, ?_, ?_, rfl, rfl, rfl, rfl⟩
+  · intro hne
+    simp [hne, Ne.symm hne]
+  · intro he
+    subst he
+    simp
+  · intro a h1 h2
+    simp [h1, h2]
+
+theorem transferFrom_exact (st st' : State) (c : Ctx) (spender src dst : Addr) (amount : Int) (evs : List Event)
+    (h : transferFrom st c spender src dst amount = .ok (st', evs)) :
+    spender ∈ c.auths ∧ 0 ≤ amount ∧ amount ≤ st.bal src ∧
+    amount ≤ (readAllowance st c.seq src spender).amount ∧
+    (readAllowance st' c.seq src spender).amount = (readAllowance st c.seq src spender).amount - amount ∧
+    (src ≠ dst → st'.bal src = st.bal src - amount ∧ st'.bal dst = st.bal dst + amount) ∧
+    (src = dst → st'.bal src = st.bal src) ∧
+    (∀ a, a ≠ src → a ≠ dst → st'.bal a = st.bal a) ∧
+    evs = [evTransfer src dst amount] := by
+  unfold transferFrom at h
+  split at h
+  · cases h
+  rename_i hauth
+  split at h
+  · cases h
+  rename_i hamt
+  split at h
+  · cases h
+  rename_i st0 h0
+  split at h
+  · cases h
+  rename_i st1 h1
+  split at h
+  · cases h
+  rename_i st2 h2
+  cases h
+  obtain ⟨hal, hb, _, _, hrd, _, _⟩ := spendAllowance_ok h0
+  obtain ⟨hle, rfl⟩ := spendBalance_ok h1
+  have := receiveBalance_ok h2
+  subst this
+  have hamt' : 0 ≤ amount := by omega
+  refine ⟨by simpa using hauth, hamt', by rw [← hb]; exact hle, hal, ?_, ?_, ?_, ?_, rfl⟩
+  · exact hrd hamt'
+  · intro hne
+    simp [hne, Ne.symm hne, hb]
+  · intro he
+    subst he
+    simp [hb]
+  · intro a h1 h2
+    simp [h1, h2, hb]
+
+theorem mintFrom_exact (st st' : State) (c : Ctx) (minter to : Addr) (amount : Int) (evs : List Event)
+    (h : mintFrom st c minter to amount = .ok (st', evs)) :
+    minter ∈ c.auths ∧ st.minter minter = true ∧ 0 ≤ amount ∧
+    st'.bal to = st.bal to + amount ∧ (∀ a, a ≠ to → st'.bal a = st.bal a) ∧
+    st'.allow = st.allow ∧ evs = [evMint minter to amount] := by
+  unfold mintFrom at h
+  split at h
+  · cases h
+  rename_i hauth
+  split at h
+  · cases h
+  rename_i hm
+  split at h
+  · cases h
+  rename_i hamt
+  split at h
+  · cases h
+  rename_i st1 h1
+  cases h
+  have := receiveBalance_ok h1
+  subst this
+  refine ⟨by simpa using hauth, by simpa using hm, by omega, by simp, ?_, rfl, rfl⟩
+  intro a ha
+  simp [ha]
+
+theorem burn_exact (st st' : State) (c : Ctx) (src : Addr) (amount : Int) (evs : List Event)
+    (h : burn st c src amount = .ok (st', evs)) :
+    src ∈ c.auths ∧ 0 ≤ amount ∧ amount ≤ st.bal src ∧
+    st'.bal src = st.bal src - amount ∧ (∀ a, a ≠ src → st'.bal a = st.bal a) ∧
+    st'.allow = st.allow ∧ evs = [evBurn src amount] := by
+  unfold burn at h
+  split at h
+  · cases h
+  rename_i hauth
+  split at h
+  · cases h
+  rename_i hamt
+  split at h
+  · cases h
+  rename_i st1 h1
+  cases h
+  obtain ⟨hle, rfl⟩ := spendBalance_ok h1
+  refine ⟨by simpa using hauth, by omega, hle, by simp, ?_, rfl, rfl⟩
+  intro a ha
+  simp [ha]
+
+theorem burnFrom_exact (st st' : State) (c : Ctx) (spender src : Addr) (amount : Int) (evs : List Event)
+    (h : burnFrom st c spender src amount = .ok (st', evs)) :
+    spender ∈ c.auths ∧ 0 ≤ amount ∧ amount ≤ st.bal src ∧
+    amount ≤ (readAllowance st c.seq src spender).amount ∧
+    (readAllowance st' c.seq src spender).amount = (readAllowance st c.seq src spender).amount - amount ∧
+    st'.bal src = st.bal src - amount ∧ (∀ a, a ≠ src → st'.bal a = st.bal a) ∧
+    evs = [evBurn src amount] := by
+  unfold burnFrom at h
+  split at h
+  · cases h
+  rename_i hauth
+  split at h
+  · cases h
+  rename_i hamt
+  split at h
+  · cases h
+  rename_i st0 h0
+  split at h
+  · cases h
+  rename_i st1 h1
+  cases h
+  obtain ⟨hal, hb, _, _, hrd, _, _⟩ := spendAllowance_ok h0
+  obtain ⟨hle, rfl⟩ := spendBalance_ok h1
+  have hamt' : 0 ≤ amount := by omega
+  refine ⟨by simpa using hauth, hamt', by rw [← hb]; exact hle, hal, hrd hamt', by simp [hb], ?_, rfl⟩
+  intro a ha
+  simp [ha, hb]
+
+/-! ### supply -/
+
+/-- one successful operation changes the sum of balances (over any duplicate-free account list that contains
+    the accounts it touches) by exactly its supply delta; a failed one changes nothing -/
+theorem supply_step (st : State) (c : Ctx) (op : Op) (accts : List Addr) (hnd : accts.Nodup)
+    (hin : ∀ a ∈ Op.accounts op, a ∈ accts) :
+    total (step st c op).1 accts =
+      total st accts + (match (step st c op).2 with | .ok _ => supplyDelta op | .error _ => 0) := by
+  rcases step_cases st c op with ⟨e, _, hs⟩ | ⟨st', evs, ha, hs⟩
+  · rw [hs]; simp
+  · rw [hs]
+    simp only
+    cases op with
+    | mintFrom m t a =>
+      simp only [apply] at ha
+      obtain ⟨_, _, _, h1, h2, _⟩ := mintFrom_exact _ _ _ _ _ _ _ ha
+      exact total_update st st' accts t a hnd (hin t (by simp [Op.accounts])) h1 h2
+    | mint t a =>
+      simp only [apply, mint] at ha
+      obtain ⟨_, _, _, h1, h2, _⟩ := mintFrom_exact _ _ _ _ _ _ _ ha
+      exact total_update st st' accts t a hnd (hin t (by simp [Op.accounts])) h1 h2
+    | addMinter m =>
+      simp only [apply] at ha
+      obtain ⟨_, hst⟩ := addMinter_ok ha
+      simp only [supplyDelta]
+      rw [total_congr st st' accts (fun _ _ => by rw [hst])]; omega
+    | removeMinter m =>
+      simp only [apply] at ha
+      obtain ⟨_, hst⟩ := removeMinter_ok ha
+      simp only [supplyDelta]
+      rw [total_congr st st' accts (fun _ _ => by rw [hst])]; omega
+    | approve s p a e =>
+      simp only [apply] at ha
+      obtain ⟨_, _, _, hst, _⟩ := approve_exact' _ _ _ _ _ _ _ _ ha
+      simp only [supplyDelta]
+      rw [total_congr st st' accts (fun _ _ => by rw [hst])]; omega
+    | transfer s d a =>
+      simp only [apply] at ha
+      obtain ⟨_, _, _, h1, h2, h3, _⟩ := transfer_exact _ _ _ _ _ _ _ ha
+      simp only [supplyDelta]
+      rw [total_move st st' accts s d a hnd (hin s (by simp [Op.accounts])) (hin d (by simp [Op.accounts])) h1 h2 h3]
+      omega
+    | transferFrom p s d a =>
+      simp only [apply] at ha
+      obtain ⟨_, _, _, _, _, h1, h2, h3, _⟩ := transferFrom_exact _ _ _ _ _ _ _ _ ha
+      simp only [supplyDelta]
+      rw [total_move st st' accts s d a hnd (hin s (by simp [Op.accounts])) (hin d (by simp [Op.accounts])) h1 h2 h3]
+      omega
+    | burn s a =>
+      simp only [apply] at ha
+      obtain ⟨_, _, _, h1, h2, _⟩ := burn_exact _ _ _ _ _ _ ha
+      exact total_update st st' accts s (-a) hnd (hin s (by simp [Op.accounts])) (by rw [h1]; omega) h2
+    | burnFrom p s a =>
+      simp only [apply] at ha
+      obtain ⟨_, _, _, _, _, h1, h2, _⟩ := burnFrom_exact _ _ _ _ _ _ _ ha
+      exact total_update st st' accts s (-a) hnd (hin s (by simp [Op.accounts])) (by rw [h1]; omega) h2
+    | transferOwnership n =>
+      simp only [apply] at ha
+      obtain ⟨_, hst, _⟩ := transferOwnership_ok ha
+      simp only [supplyDelta]
+      rw [total_congr st st' accts (fun _ _ => by rw [hst])]; omega
+
+/-- **Σ balances = supply** over every history: the sum of balances moves exactly by the mints minus the burns -/
+theorem supply_run (st : State) (ops : List (Ctx × Op)) (accts : List Addr) (hnd : accts.Nodup)
+    (hin : ∀ p ∈ ops, ∀ a ∈ Op.accounts p.2, a ∈ accts) :
+    total (run st ops) accts = total st accts + supplyChange st ops := by
+  induction ops generalizing st with
+  | nil => simp [run, supplyChange]
+  | cons p rest ih =>
+    obtain ⟨c, op⟩ := p
+    simp only [run, supplyChange]
+    rw [ih (step st c op).1 (fun q hq => hin q (by simp [hq]))]
+    rw [supply_step st c op accts hnd (hin (c, op) (by simp))]
+    omega
+
+/-! ### non-negativity -/
+
+theorem nonneg_construct (owner : Addr) (minter : Option Addr) : NonNeg (construct owner minter) := by
+  refine ⟨fun a => ?_, fun f s al h => ?_⟩
+  · simp [construct]
+  · simp [construct] at h
+
+theorem nonneg_step (st : State) (c : Ctx) (op : Op) (h : NonNeg st) : NonNeg (step st c op).1 := by
+  rcases step_cases st c op with ⟨e, _, hs⟩ | ⟨st', evs, ha, hs⟩
+  · rw [hs]; exact h
+  · rw [hs]
+    simp only
+    cases op with
+    | mintFrom m t a =>
+      simp only [apply] at ha
+      obtain ⟨_, _, h0, h1, h2, h3, _⟩ := mintFrom_exact _ _ _ _ _ _ _ ha
+      apply nonneg_of_bal_allow st st' h
+      · intro x
+        by_cases hx : x = t
+        · subst hx; rw [h1]; have := h.1 x; omega
+        · rw [h2 x hx]; exact h.1 x
+      · intro f s al hfs; rw [h3] at hfs; exact Or.inl hfs
+    | mint t a =>
+      simp only [apply, mint] at ha
+      obtain ⟨_, _, h0, h1, h2, h3, _⟩ := mintFrom_exact _ _ _ _ _ _ _ ha
+      apply nonneg_of_bal_allow st st' h
+      · intro x
+        by_cases hx : x = t
+        · subst hx; rw [h1]; have := h.1 x; omega
+        · rw [h2 x hx]; exact h.1 x
+      · intro f s al hfs; rw [h3] at hfs; exact Or.inl hfs
+    | addMinter m =>
+      simp only [apply] at ha
+      obtain ⟨_, rfl⟩ := addMinter_ok ha
+      exact h
+    | removeMinter m =>
+      simp only [apply] at ha
+      obtain ⟨_, rfl⟩ := removeMinter_ok ha
+      exact h
+    | approve s p a e =>
+      simp only [apply] at ha
+      obtain ⟨_, h0, _, rfl, _⟩ := approve_exact' _ _ _ _ _ _ _ _ ha
+      apply nonneg_of_bal_allow st _ h
+      · exact h.1
+      · intro f s' al hfs
+        simp only at hfs
+        split at hfs
+        · cases hfs; exact Or.inr h0
+        · exact Or.inl hfs
+    | transfer s d a =>
+      simp only [apply] at ha
+      obtain ⟨_, h0, hle, h1, h2, h3, h4, _⟩ := transfer_exact _ _ _ _ _ _ _ ha
+      apply nonneg_of_bal_allow st st' h
+      · intro x
+        by_cases hsd : s = d
+        · subst hsd
+          by_cases hx : x = s
+          · subst hx; rw [h2 rfl]; exact h.1 x
+          · rw [h3 x hx hx]; exact h.1 x
+        · obtain ⟨e1, e2⟩ := h1 hsd
+          by_cases hx : x = s
+          · subst hx; rw [e1]; omega
+          · by_cases hx' : x = d
+            · subst hx'; rw [e2]; have := h.1 x; omega
+            · rw [h3 x hx hx']; exact h.1 x
+      · intro f s al hfs; rw [h4] at hfs; exact Or.inl hfs
+    | transferFrom p s d a =>
+      simp only [apply] at ha
+      obtain ⟨_, h0, hle, _, _, h1, h2, h3, _⟩ := transferFrom_exact _ _ _ _ _ _ _ _ ha
+      apply nonneg_of_bal_allow st st' h
+      · intro x
+        by_cases hsd : s = d
+        · subst hsd
+          by_cases hx : x = s
+          · subst hx; rw [h2 rfl]; exact h.1 x
+          · rw [h3 x hx hx]; exact h.1 x
+        · obtain ⟨e1, e2⟩ := h1 hsd
+          by_cases hx : x = s
+          · subst hx; rw [e1]; omega
+          · by_cases hx' : x = d
+            · subst hx'; rw [e2]; have := h.1 x; omega
+            · rw [h3 x hx hx']; exact h.1 x
+      · unfold transferFrom at ha
+        split at ha
+        · cases ha
+        split at ha
+        · cases ha
+        split at ha
+        · cases ha
+        rename_i st0 hsp
+        split at ha
+        · cases ha
+        rename_i st1 hsb
+        split at ha
+        · cases ha
+        rename_i st2 hrb
+        cases ha
+        obtain ⟨_, rfl⟩ := spendBalance_ok hsb
+        have := receiveBalance_ok hrb
+        subst this
+        have hfin := spendAllowance_allow_nonneg hsp h0
+        exact hfin
+    | burn s a =>
+      simp only [apply] at ha
+      obtain ⟨_, h0, hle, h1, h2, h3, _⟩ := burn_exact _ _ _ _ _ _ ha
+      apply nonneg_of_bal_allow st st' h
+      · intro x
+        by_cases hx : x = s
+        · subst hx; rw [h1]; omega
+        · rw [h2 x hx]; exact h.1 x
+      · intro f s al hfs; rw [h3] at hfs; exact Or.inl hfs
+    | burnFrom p s a =>
+      simp only [apply] at ha
+      obtain ⟨_, h0, hle, _, _, h1, h2, _⟩ := burnFrom_exact _ _ _ _ _ _ _ ha
+      apply nonneg_of_bal_allow st st' h
+      · intro x
+        by_cases hx : x = s
+        · subst hx; rw [h1]; omega
+        · rw [h2 x hx]; exact h.1 x
+      · unfold burnFrom at ha
+        split at ha
+        · cases ha
+        split at ha
+        · cases ha
+        split at ha
+        · cases ha
+        rename_i st0 hsp
+        split at ha
+        · cases ha
+        rename_i st1 hsb
+        cases ha
+        obtain ⟨_, rfl⟩ := spendBalance_ok hsb
+        have hfin := spendAllowance_allow_nonneg hsp h0
+        exact hfin
+    | transferOwnership n =>
+      simp only [apply] at ha
+      obtain ⟨_, rfl, _⟩ := transferOwnership_ok ha
+      exact h
+
+/-- no balance or allowance is ever negative, in any history from construction -/
+theorem nonneg_run (st : State) (ops : List (Ctx × Op)) (h : NonNeg st) : NonNeg (run st ops) := by
+  induction ops generalizing st with
+  | nil => exact h
+  | cons p rest ih =>
+    obtain ⟨c, op⟩ := p
+    simp only [run]
+    exact ih _ (nonneg_step st c op h)
+
+/-! ### rejections -/
+
 theorem rejected_no_effect (st : State) (c : Ctx) (op : Op) (e : Err) (h : (step st c op).2 = .error e) :
     (step st c op).1 = st := by
-  simp only [step] at h ⊢
-  split <;> simp_all
+  rcases step_cases st c op with ⟨e', _, hs⟩ | ⟨st', evs, _, hs⟩
+  · rw [hs]
+  · rw [hs] at h; cases h
+
+/-- the amount an operation carries, if any -/
+def Op.amount : Op → Option Int
+  | .mintFrom _ _ a => some a | .mint _ a => some a | .approve _ _ a _ => some a
+  | .transfer _ _ a => some a | .transferFrom _ _ _ a => some a | .burn _ a => some a | .burnFrom _ _ a => some a
+  | _ => none
+
+theorem negative_amount_rejected (st : State) (c : Ctx) (op : Op) (a : Int) (ha : Op.amount op = some a) (hneg : a < 0) :
+    ∃ e, (step st c op).2 = .error e := by
+  rcases step_cases st c op with ⟨e, _, hs⟩ | ⟨st', evs, hap, hs⟩
+  · exact ⟨e, by rw [hs]⟩
+  · exfalso
+    cases op with
+    | mintFrom m t x =>
+      simp only [apply] at hap
+      simp only [Op.amount, Option.some.injEq] at ha; subst ha
+      have := (mintFrom_exact _ _ _ _ _ _ _ hap).2.2.1
+      omega
+    | mint t x =>
+      simp only [apply, mint] at hap
+      simp only [Op.amount, Option.some.injEq] at ha; subst ha
+      have := (mintFrom_exact _ _ _ _ _ _ _ hap).2.2.1
+      omega
+    | addMinter m => simp [Op.amount] at ha
+    | removeMinter m => simp [Op.amount] at ha
+    | approve s p x e =>
+      simp only [apply] at hap
+      simp only [Op.amount, Option.some.injEq] at ha; subst ha
+      have := (approve_exact' _ _ _ _ _ _ _ _ hap).2.1
+      omega
+    | transfer s d x =>
+      simp only [apply] at hap
+      simp only [Op.amount, Option.some.injEq] at ha; subst ha
+      have := (transfer_exact _ _ _ _ _ _ _ hap).2.1
+      omega
+    | transferFrom p s d x =>
+      simp only [apply] at hap
+      simp only [Op.amount, Option.some.injEq] at ha; subst ha
+      have := (transferFrom_exact _ _ _ _ _ _ _ _ hap).2.1
+      omega
+    | burn s x =>
+      simp only [apply] at hap
+      simp only [Op.amount, Option.some.injEq] at ha; subst ha
+      have := (burn_exact _ _ _ _ _ _ hap).2.1
+      omega
+    | burnFrom p s x =>
+      simp only [apply] at hap
+      simp only [Op.amount, Option.some.injEq] at ha; subst ha
+      have := (burnFrom_exact _ _ _ _ _ _ _ hap).2.1
+      omega
+    | transferOwnership n => simp [Op.amount] at ha
+
+theorem insufficient_balance_rejected (st : State) (c : Ctx) (src dst : Addr) (amount : Int) (h : st.bal src < amount) :
+    (∃ e, transfer st c src dst amount = .error e) ∧ (∃ e, burn st c src amount = .error e) ∧
+    (∀ spender, (∃ e, transferFrom st c spender src dst amount = .error e) ∧ (∃ e, burnFrom st c spender src amount = .error e)) := by
+  refine ⟨?_, ?_, fun spender => ⟨?_, ?_⟩⟩
+  · cases hr : transfer st c src dst amount with
+    | error e => exact ⟨e, rfl⟩
+    | ok p =>
+      obtain ⟨st', evs⟩ := p
+      have := (transfer_exact _ _ _ _ _ _ _ hr).2.2.1
+      omega
+  · cases hr : burn st c src amount with
+    | error e => exact ⟨e, rfl⟩
+    | ok p =>
+      obtain ⟨st', evs⟩ := p
+      have := (burn_exact _ _ _ _ _ _ hr).2.2.1
+      omega
+  · cases hr : transferFrom st c spender src dst amount with
+    | error e => exact ⟨e, rfl⟩
+    | ok p =>
+      obtain ⟨st', evs⟩ := p
+      have := (transferFrom_exact _ _ _ _ _ _ _ _ hr).2.2.1
+      omega
+  · cases hr : burnFrom st c spender src amount with
+    | error e => exact ⟨e, rfl⟩
+    | ok p =>
+      obtain ⟨st', evs⟩ := p
+      have := (burnFrom_exact _ _ _ _ _ _ _ hr).2.2.1
+      omega
+
+/-- insufficient, expired or never-granted allowance: delegated operations with a positive amount are rejected -/
+theorem insufficient_allowance_rejected (st : State) (c : Ctx) (spender src dst : Addr) (amount : Int)
+    (h : (readAllowance st c.seq src spender).amount < amount) :
+    (∃ e, transferFrom st c spender src dst amount = .error e) ∧ (∃ e, burnFrom st c spender src amount = .error e) := by
+  refine ⟨?_, ?_⟩
+  · cases hr : transferFrom st c spender src dst amount with
+    | error e => exact ⟨e, rfl⟩
+    | ok p =>
+      obtain ⟨st', evs⟩ := p
+      have := (transferFrom_exact _ _ _ _ _ _ _ _ hr).2.2.2.1
+      omega
+  · cases hr : burnFrom st c spender src amount with
+    | error e => exact ⟨e, rfl⟩
+    | ok p =>
+      obtain ⟨st', evs⟩ := p
+      have := (burnFrom_exact _ _ _ _ _ _ _ hr).2.2.2.1
+      omega
+
+theorem never_granted_reads_zero (st : State) (seq : Nat) (src spender : Addr) (h : st.allow src spender = none) :
+    (readAllowance st seq src spender).amount = 0 := by
+  simp only [readAllowance, h]
+
+theorem expired_reads_zero (st : State) (seq : Nat) (src spender : Addr) (al : Allowance)
+    (h : st.allow src spender = some al) (hexp : al.expiration < seq) :
+    (readAllowance st seq src spender).amount = 0 := by
+  simp only [readAllowance, h, hexp, if_true]
+
+/-! ### allowance lifetime -/
+
+/-- after a successful approve, the allowance reads as the approved amount at every ledger up to AND INCLUDING the
+    expiration ledger, and as 0 afterwards -/
+theorem allowance_live_iff (st st' : State) (c : Ctx) (src spender : Addr) (amount : Int) (exp : Nat) (evs : List Event)
+    (h : approve st c src spender amount exp = .ok (st', evs)) (seq' : Nat) :
+    (readAllowance st' seq' src spender).amount = if seq' ≤ exp then amount else 0 := by
+  obtain ⟨_, _, _, rfl, _⟩ := approve_exact' _ _ _ _ _ _ _ _ h
+  rw [read_after_write]
+  by_cases hs : seq' ≤ exp
+  · rw [if_neg (by omega), if_pos hs]
+  · rw [if_pos (by omega), if_neg hs]
+
+theorem approve_exact (st st' : State) (c : Ctx) (src spender : Addr) (amount : Int) (exp : Nat) (evs : List Event)
+    (h : approve st c src spender amount exp = .ok (st', evs)) :
+    src ∈ c.auths ∧ 0 ≤ amount ∧ (0 < amount → c.seq ≤ exp) ∧
+    st'.bal = st.bal ∧ (∀ f s, ¬ (f = src ∧ s = spender) → st'.allow f s = st.allow f s) ∧
+    evs = [evApprove src spender amount exp] := by
+  obtain ⟨h1, h2, h3, rfl, h5⟩ := approve_exact' _ _ _ _ _ _ _ _ h
+  refine ⟨h1, h2, h3, rfl, ?_, h5⟩
+  intro f s hfs
+  simp only [hfs, if_false]
+
+theorem approve_rejects_expired_positive (st : State) (c : Ctx) (src spender : Addr) (amount : Int) (exp : Nat)
+    (hpos : 0 < amount) (hexp : exp < c.seq) : ∃ e, approve st c src spender amount exp = .error e := by
+  cases hr : approve st c src spender amount exp with
+  | error e => exact ⟨e, rfl⟩
+  | ok p =>
+    obtain ⟨st', evs⟩ := p
+    have := (approve_exact' _ _ _ _ _ _ _ _ hr).2.2.1 hpos
+    omega
+
+/-! ### minting rights, ownership, events -/
+
+theorem only_minters_mint (st : State) (c : Ctx) (op : Op) (evs : List Event)
+    (hok : (step st c op).2 = .ok evs) (hd : 0 < supplyDelta op) :
+    (∃ m t a, op = .mintFrom m t a ∧ st.minter m = true ∧ m ∈ c.auths) ∨
+    (∃ t a, op = .mint t a ∧ st.minter st.owner = true ∧ st.owner ∈ c.auths) := by
+  rcases step_cases st c op with ⟨e, _, hs⟩ | ⟨st', evs', hap, hs⟩
+  · rw [hs] at hok; cases hok
+  · cases op with
+    | mintFrom m t a =>
+      simp only [apply] at hap
+      obtain ⟨h1, h2, _⟩ := mintFrom_exact _ _ _ _ _ _ _ hap
+      exact Or.inl ⟨m, t, a, rfl, h2, h1⟩
+    | mint t a =>
+      simp only [apply, mint] at hap
+      obtain ⟨h1, h2, _⟩ := mintFrom_exact _ _ _ _ _ _ _ hap
+      exact Or.inr ⟨t, a, rfl, h2, h1⟩
+    | addMinter m => simp [supplyDelta] at hd
+    | removeMinter m => simp [supplyDelta] at hd
+    | approve s p a e => simp [supplyDelta] at hd
+    | transfer s d a => simp [supplyDelta] at hd
+    | transferFrom p s d a => simp [supplyDelta] at hd
+    | burn s a =>
+      simp only [apply] at hap
+      simp only [supplyDelta] at hd
+      have := (burn_exact _ _ _ _ _ _ hap).2.1
+      omega
+    | burnFrom p s a =>
+      simp only [apply] at hap
+      simp only [supplyDelta] at hd
+      have := (burnFrom_exact _ _ _ _ _ _ _ hap).2.1
+      omega
+    | transferOwnership n => simp [supplyDelta] at hd
+
+/-- the minter set and the owner change only through the owner's own authorised calls -/
+theorem roles_step (st : State) (c : Ctx) (op : Op) :
+    ((step st c op).1.minter = st.minter ∧ (step st c op).1.owner = st.owner) ∨ st.owner ∈ c.auths := by
+  rcases step_cases st c op with ⟨e, _, hs⟩ | ⟨st', evs, hap, hs⟩
+  · rw [hs]; exact Or.inl ⟨rfl, rfl⟩
+  · rw [hs]
+    simp only
+    cases op with
+    | mintFrom m t a =>
+      left
+      simp only [apply, mintFrom] at hap
+      split at hap
+      · cases hap
+      split at hap
+      · cases hap
+      split at hap
+      · cases hap
+      split at hap
+      · cases hap
+      rename_i st1 h1
+      cases hap
+      have := receiveBalance_ok h1
+      subst this
+      exact ⟨rfl, rfl⟩
+    | mint t a =>
+      left
+      simp only [apply, mint, mintFrom] at hap
+      split at hap
+      · cases hap
+      split at hap
+      · cases hap
+      split at hap
+      · cases hap
+      split at hap
+      · cases hap
+      rename_i st1 h1
+      cases hap
+      have := receiveBalance_ok h1
+      subst this
+      exact ⟨rfl, rfl⟩
+    | addMinter m =>
+      simp only [apply] at hap
+      exact Or.inr (addMinter_ok hap).1
+    | removeMinter m =>
+      simp only [apply] at hap
+      exact Or.inr (removeMinter_ok hap).1
+    | approve s p a e =>
+      simp only [apply] at hap
+      obtain ⟨_, _, _, rfl, _⟩ := approve_exact' _ _ _ _ _ _ _ _ hap
+      exact Or.inl ⟨rfl, rfl⟩
+    | transfer s d a =>
+      simp only [apply] at hap
+      obtain ⟨_, _, _, _, _, _, _, h1, h2, _⟩ := transfer_exact _ _ _ _ _ _ _ hap
+      exact Or.inl ⟨h1, h2⟩
+    | transferFrom p s d a =>
+      left
+      simp only [apply, transferFrom] at hap
+      split at hap
+      · cases hap
+      split at hap
+      · cases hap
+      split at hap
+      · cases hap
+      rename_i st0 hsp
+      split at hap
+      · cases hap
+      rename_i st1 hsb
+      split at hap
+      · cases hap
+      rename_i st2 hrb
+      cases hap
+      obtain ⟨_, rfl⟩ := spendBalance_ok hsb
+      have := receiveBalance_ok hrb
+      subst this
+      obtain ⟨_, _, hm, ho, _⟩ := spendAllowance_ok hsp
+      exact ⟨hm, ho⟩
+    | burn s a =>
+      left
+      simp only [apply, burn] at hap
+      split at hap
+      · cases hap
+      split at hap
+      · cases hap
+      split at hap
+      · cases hap
+      rename_i st1 hsb
+      cases hap
+      obtain ⟨_, rfl⟩ := spendBalance_ok hsb
+      exact ⟨rfl, rfl⟩
+    | burnFrom p s a =>
+      left
+      simp only [apply, burnFrom] at hap
+      split at hap
+      · cases hap
+      split at hap
+      · cases hap
+      split at hap
+      · cases hap
+      rename_i st0 hsp
+      split at hap
+      · cases hap
+      rename_i st1 hsb
+      cases hap
+      obtain ⟨_, rfl⟩ := spendBalance_ok hsb
+      obtain ⟨_, _, hm, ho, _⟩ := spendAllowance_ok hsp
+      exact ⟨hm, ho⟩
+    | transferOwnership n =>
+      simp only [apply] at hap
+      exact Or.inr (transferOwnership_ok hap).1
+
+/-- administrator change: the ownable event and the token-standard `set_admin` event both name the PREVIOUS and the new administrator -/
+theorem transferOwnership_exact (st st' : State) (c : Ctx) (new : Addr) (evs : List Event)
+    (h : transferOwnership st c new = .ok (st', evs)) :
+    st.owner ∈ c.auths ∧ st'.owner = new ∧ st'.bal = st.bal ∧ st'.allow = st.allow ∧ st'.minter = st.minter ∧
+    evs = [evOwnershipTransferred st.owner new, evSetAdmin st.owner new] := by
+  obtain ⟨h1, rfl, h3⟩ := transferOwnership_ok h
+  exact ⟨h1, rfl, rfl, rfl, rfl, h3⟩
+
+/-- non-vacuity: a concrete successful transfer -/
+example : ∃ st' evs, transfer { (construct ⟨true, [1]⟩ none) with bal := fun _ => 5 }
+    ⟨[⟨true, [2]⟩], 0, 0⟩ ⟨true, [2]⟩ ⟨true, [3]⟩ 5 = .ok (st', evs) := by
+  simp [transfer, spendBalance, receiveBalance, construct, i128Max]
 
 end Cgp.Props.C12
